@@ -8,7 +8,7 @@
    harness checks those oracles numerically on the implementation (interior angles from tangent vectors, enclosed
    area by a triangle fan, common region by planar clipping). *)
 From Coq Require Import Reals ZArith List Bool Lra Lia PrimFloat.
-From PR Require Import Base.Num Base.RNum Base.F64 Model.SphPoly Proofs.C17_area Proofs.C17_setops.
+From PR Require Import Base.Num Base.RNum Base.F64 Model.SphPoly Proofs.C17_area Proofs.C17_setops Proofs.C17_walk.
 Import ListNotations.
 Open Scope R_scope.
 
@@ -119,6 +119,25 @@ Theorem C17_setops_laws_partial :
      res Arr (-1)%Z i12 i21 RA RB = Some RA /\ res Arr 1%Z i12 i21 RA RB = Some RB).
 Proof. exact setops_laws. Qed.
 Print Assumptions C17_setops_laws_partial.
+
+(* Arc.get_next_intersection as modelled, over real distances: without a known crossing the result is a crossing
+   of edge e with one of the offered edges, and no other such crossing is nearer to the start of e *)
+Theorem C17_next_intersection_nearest : forall (side : bool) (Arr : @arrangement R) (e : Z) (others : list Z) (x : xing),
+  get_next_intersection RO Arr side e others None = Some x ->
+  (In x (res_list Arr side e others) /\ xe side x = e /\ In (xe (negb side) x) others) /\
+  forall y, In y (res_list Arr side e others) -> xd side x <= xd side y.
+Proof.
+  intros side Arr e others x H. destruct (next_intersection_nearest side Arr e others x H) as (Hin & Hmin).
+  destruct (res_list_on_edge side Arr e others x Hin) as (H1 & H2 & _). repeat split; assumption.
+Qed.
+Print Assumptions C17_next_intersection_nearest.
+(* ... and after a known crossing k the result is another crossing of edge e, not nearer than k *)
+Theorem C17_next_intersection_after : forall (side : bool) (Arr : @arrangement R) (e : Z) (others : list Z) (k : Z) (x : xing),
+  get_next_intersection RO Arr side e others (Some k) = Some x ->
+  In x (res_list Arr side e others) /\ xid x <> k /\
+  exists y, In y (res_list Arr side e others) /\ xid y = k /\ xd side y <= xd side x.
+Proof. exact next_intersection_after. Qed.
+Print Assumptions C17_next_intersection_after.
 
 (* the hypotheses are satisfiable: the crossing tables (Arc.intersection, distances, turn signs, _is_inside) of two
    real triangles A, B -- vertex 1 of A lies inside B, cut off by edge 2 of B -- as captured from the implementation,
